@@ -93,7 +93,17 @@ def leg_P(parser_obj):
             except Exception:
                 continue
             stats['combinations'] += 1
-            for n in ([r] if isinstance(r, Node) else node_values(r, Node)):
+            # every node reachable by attribute reflection from the action's result (an action may build nested nodes)
+            todo = [r] if isinstance(r, Node) else list(node_values(r, Node))
+            reach, seen_ids = [], set()
+            while todo:
+                x = todo.pop()
+                if id(x) in seen_ids:
+                    continue
+                seen_ids.add(id(x))
+                reach.append(x)
+                todo += reflect_children(x, Node)
+            for n in reach:
                 stats['nodes_checked'] += 1
                 stats['node_classes'].add(type(n).__name__)
                 msg = check_node(n, Node)
